@@ -13,4 +13,10 @@ CHECKS = {
   "text": "Round trip decode(ref_encode(n)) == n for every representable integer of width 1-4 (2.5M values, exhaustive) and width 5 (87.5M values: exhaustive in the thorough tier, 2.2M values around every segment boundary in the quick tier), bare and blank-padded; malformed strings exhaustively to width 3 over a reduced alphabet and sampled to width 5 must raise ValueError; well-formed strings are compared with a reference decoder.",
   "note": "Trusts vlib/refs.py hy36_encode/hy36_classify/hy36_decode_ref (written from the format description). Sign + letter form and non-blank whitespace padding are not classified. Width-5 coverage is exhaustive only in the thorough tier.",
  },
+ "C07": {
+  "level": "exploration",
+  "technique": "metamorphic property-based testing (Hypothesis): generated structures x generated edits of unused content; records must be identical",
+  "text": "For generated structures (segments and balls of the reference proteins with threaded mutations, relabelled chains, library ligands and ions) the full observation record and the .pka text must be bit-identical after inserting ignorable residues (HETATM and ATOM tagged, at chain starts, after TER, anywhere), hydrogens under all PDB naming styles, non-atom records, and after rewriting serial/occupancy/B/element/charge columns or truncating lines; --protonate-all and the keep-protons round trip must reproduce every group within 1e-9.",
+  "note": "Trusts the harness PDB writer/reader (vlib/pdbio.py) and the coordinate-based group keying (vlib/observe.py). Sampled, not exhaustive; edits are limited to the classes listed in the evidence rule.",
+ },
 }
